@@ -374,3 +374,34 @@ def omega_traces(ctx, sources):
         if gl:
             ctx.sample({'trace_event': gl[0][1][-1]})
     return tot
+
+
+# --------------------------------------------------------------------------------------
+SOLVE_CFG = '\n'.join(['CONSTANTS Ranks = {0}', 'ClosurePatterns = {"trace"}', 'PotentialPatterns = {"trace"}', 'OmegaPatterns = {"trace"}',
+                       'Methods = {"?"}', 'INIT TraceInit', 'NEXT TraceNext', 'VIEW TraceView', 'CHECK_DEADLOCK FALSE',
+                       'INVARIANTS SuccessImpliesEquations', 'POSTCONDITION TraceAccepted', ''])
+
+
+def solve_traces(ctx, sources):
+    """prism.solve events (one sub-trace per PRISM object) against Trace_PrismSolve.tla"""
+    tot = 0
+    for name, evs, info in sources:
+        sv = [dict(e, obj=e['prism']) for e in evs if e['ev'] == 'prism.solve' and 'eqclass' in e]
+        errs = [e for e in evs if e['ev'] == 'prism.solve' and e.get('evalerr')]
+        if errs:
+            raise MachineryError('evaluator failed inside the observer: %s' % errs[0]['evalerr'])
+        groups, order = {}, []
+        for e in sv:
+            o = (e.get('pid'), e['obj'])
+            if o not in groups:
+                groups[o] = []
+                order.append(o)
+            groups[o].append(e)
+        gl = [(o, groups[o]) for o in order]
+        a, b = validate(ctx, 'Trace_PrismSolve', SOLVE_CFG, gl, 'trace.PrismSolve.' + name)
+        tot += a
+        judged = sum(1 for e in sv if e['eqclass'] != 'unjudged' and e['success'] == 1)
+        ctx.stage('trace.PrismSolve.' + name, objects=len(gl), objects_accepted=a, events_accepted=b, successful_solves_judged=judged, source=info)
+        if gl:
+            ctx.sample({'trace_event': {k: v for k, v in gl[0][1][-1].items() if k not in ('flag', 'drift')}})
+    return tot
